@@ -67,7 +67,7 @@ def translate():
             if rc != 0:
                 return {"ok": False, "error": "translator build failed: " + err[-2000:]}
         rep = os.path.join(CACHE, "translator-report.json")
-        rc, out, err, _ = sh([exe, REPO, os.path.join(COQ, "Gen", "Generated.v"), rep])
+        rc, out, err, _ = sh([exe, REPO, os.path.join(COQ, "Gen", "Generated.v"), rep, os.path.join(ROOT, "harness", "Cargo.lock")])
         if rc != 0:
             return {"ok": False, "error": "translator failed: " + (err or out)[-2000:]}
         try:
